@@ -43,8 +43,8 @@ C_UA = clause(U, 'post:ua_follows', ['C11'], 'B')
 C_SRC_WF = clause(U, 'post:sources_wf', ['C08'], 'B')
 C_SRC_EXACT = clause(U, 'post:sources_exact', ['C08'], 'B')
 C_DEPTHS = clause(U, 'post:depths', ['C08'], 'B')
-C_FRAME = clause(U, 'frame:inputs_unchanged', ['C16'], 'B')
-C_FRESH = clause(U, 'frame:fresh_sources', ['C16'], 'B')
+C_FRAME = clause(U, 'frame:inputs_unchanged', ['C16', 'C08'], 'B')
+C_FRESH = clause(U, 'frame:fresh_sources', ['C16', 'C08'], 'B')
 
 
 def forwarded_call(call, outer_view, uv, uk):
